@@ -227,6 +227,22 @@ func (c07) Run(c *run.Ctx, phase, idx int) {
 				}
 			}
 		}
+		// a reader that also has Len(), meaning "staged right now"
+		for _, chunk := range []int{1, 5, 64} {
+			st := mon.NewStagedReader(f.Bytes, chunk)
+			c.Current(func() string {
+				return fmt.Sprintf("ReadPacket frame=%s staged-reader chunk=%d", hexClip(f.Bytes, 512), chunk)
+			})
+			res := mon.Read(st)
+			c.Eval(1)
+			c.Distinct(run.HashBytes(run.Hash64("staged", itoa(chunk)), f.Bytes), true)
+			c.Count("schedules", "staged-reader", 1)
+			if ok, why := sameOutcome(iso, res); !ok {
+				c.Violation("C07/staged-reader/"+f.Kind+"/"+acceptWord(iso.Accepted), fmt.Sprintf("%s frame of %d bytes read through a reader that stages %d bytes at a time and has a Len() method: %s", tname(f.Type), n, chunk, why),
+					map[string]interface{}{"frame": hexClip(f.Bytes, 2048), "chunk": chunk})
+				break
+			}
+		}
 		// pipelined: the next frame's bytes may arrive in the same Read as
 		// the end of this one; neither result may depend on that
 		if n <= 4096 {
